@@ -17,10 +17,12 @@
 From FCA Require Export Base.C07_Str.
 From Coq Require Export ZArith.
 
-Inductive fnum := FFin (z : Z) | FPosInf | FNegInf.
+(* FBits b : any other float, named by its IEEE-754 bit pattern (only ever compared for identity) *)
+Inductive fnum := FFin (z : Z) | FPosInf | FNegInf | FBits (b : Z).
 Definition fnum_eqb (a b : fnum) : bool :=
   match a, b with
   | FFin x, FFin y => Z.eqb x y
+  | FBits x, FBits y => Z.eqb x y
   | FPosInf, FPosInf | FNegInf, FNegInf => true
   | _, _ => false
   end.
